@@ -47,11 +47,11 @@ theorem unlanes_packLanes (W : Nat) (hW : 0 < W) : ∀ xs : List Nat,
     simp only [List.length_cons, unlanes, packLanes, h1, h2, List.map_cons,
       unlanes_packLanes W hW xs]
 
-theorem xorSelect_lt (L : Nat) : ∀ (bs : List Nat) (sel : Nat), (∀ b ∈ bs, b < 2 ^ L) →
+theorem xorSelect_lt_dist (L : Nat) : ∀ (bs : List Nat) (sel : Nat), (∀ b ∈ bs, b < 2 ^ L) →
     xorSelect bs sel < 2 ^ L
   | [], _, _ => by simp [xorSelect]
   | b :: bs, sel, h => by
-    have ih := xorSelect_lt L bs (sel / 2) (fun x hx => h x (by simp [hx]))
+    have ih := xorSelect_lt_dist L bs (sel / 2) (fun x hx => h x (by simp [hx]))
     have hb := h b (by simp)
     simp only [xorSelect]
     split
@@ -72,7 +72,7 @@ theorem lanes_xorSelect (L : Nat) (stabs cs : List Nat) (hlen : stabs.length ≤
   apply List.map_congr_left
   intro c _
   simp only [Function.comp, Nat.shiftRight_zero]
-  exact Nat.mod_eq_of_lt (xorSelect_lt L stabs c hfit)
+  exact Nat.mod_eq_of_lt (xorSelect_lt_dist L stabs c hfit)
 
 /-! ### supports -/
 
